@@ -130,14 +130,16 @@ fn gen_c01(tier: &Tier, rng: &mut Rng, w: usize, nw: usize, out: &mut Vec<Case>)
         let caps = if p.len() > 9000 { vec![None] } else { caps_for(p.len(), rng) };
         let cap = *rng.pick(&caps);
         let ct = cap_tok(cap);
+        // now and then keep polling long after exhaustion (counters that only wrap after many calls)
+        let tail = if rng.chance(1, 16) { 300 } else { 3 };
         let mut lines = vec![
             format!("enc inf {}", tok(&p)),
-            format!("enci {} 3", tok(&p)),
+            format!("enci {} {}", tok(&p), tail),
             format!("dec {} {} F", ct, ft),
             format!("decode {}", ft),
-            format!("iter {} {} 2", ct, ft),
-            format!("rdr mem {} nnn {}", ct, ft),
-            format!("rdr io {} nnn {}", ct, ft),
+            format!("iter {} {} {}", ct, ft, tail - 1),
+            format!("rdr mem {} {} {}", ct, calls('n', tail), ft),
+            format!("rdr io {} {} {}", ct, calls('n', tail), ft),
         ];
         if p.len() <= 8192 && rng.chance(1, 20) {
             lines.push(format!("rdr mem 8192 nnn {}", ft));
@@ -152,7 +154,8 @@ fn gen_c07(tier: &Tier, rng: &mut Rng, w: usize, nw: usize, out: &mut Vec<Case>)
         let f = spec::frame(&p);
         let l = f.len();
         let pt = tok(&p);
-        let mut lines = vec![format!("frame {}", pt), format!("enc inf {}", pt), format!("enci {} 8", pt)];
+        let tail = if rng.chance(1, 8) { 300 } else { 8 };
+        let mut lines = vec![format!("frame {}", pt), format!("enc inf {}", pt), format!("enci {} {}", pt, tail)];
         for c in l.saturating_sub(3)..=l + 1 {
             if cap_supported(c) {
                 lines.push(format!("enc {} {}", c, pt));
@@ -261,7 +264,7 @@ fn gen_c05(tier: &Tier, rng: &mut Rng, w: usize, nw: usize, out: &mut Vec<Case>)
         };
         let mut lines = vec![format!("dec {} {}", cap_tok(cap), random_history(rng, &s))];
         if rng.chance(1, 4) {
-            lines.push(format!("iter {} {} 3", cap_tok(cap), tok(&s)));
+            lines.push(format!("iter {} {} {}", cap_tok(cap), tok(&s), if rng.chance(1, 8) { 300 } else { 3 }));
             lines.push(format!("decode {}", tok(&s)));
         }
         if rng.chance(1, 4) {
@@ -269,7 +272,7 @@ fn gen_c05(tier: &Tier, rng: &mut Rng, w: usize, nw: usize, out: &mut Vec<Case>)
         }
         if rng.chance(1, 6) {
             let p = rand_payload(rng, 40);
-            lines.push(format!("enci {} 5", tok(&p)));
+            lines.push(format!("enci {} {}", tok(&p), if rng.chance(1, 4) { 300 } else { 5 }));
             lines.push(format!("enc {} {}", cap_tok(cap), tok(&p)));
         }
         out.push(Case::new("history", lines));
@@ -331,8 +334,8 @@ fn gen_c15(tier: &Tier, rng: &mut Rng, w: usize, nw: usize, out: &mut Vec<Case>)
         let mut lines = vec![
             format!("dec inf {} F", st),
             format!("decode {}", st),
-            format!("iter inf {} 2", st),
-            format!("rdr mem inf {} {}", calls('n', 16), st),
+            format!("iter inf {} {}", st, if rng.chance(1, 16) { 300 } else { 2 }),
+            format!("rdr mem inf {} {}", calls('n', if rng.chance(1, 16) { 300 } else { 16 }), st),
             format!("rdr io inf {} {}", calls('n', 16), st),
         ];
         if let Some(c) = big {
